@@ -675,23 +675,31 @@ func TestVerifC12BECPUSetRecover(t *testing.T) {
 		defer close(stop)
 		r.init(stop)
 
-		static := rapid.Bool().Draw(rt, "staticPolicyRound")
+		var static bool
 		var tset cpuset.CPUSet
-		if static {
-			inf.topo.Annotations = map[string]string{apiext.AnnotationKubeletCPUManagerPolicy: `{"policy":"static"}`}
-			target := c12Subset(rt, allBE, "target")
-			tset = cpuset.NewCPUSet(target...)
-			cur, _ := read(1)
-			trace = append(trace, fmt.Sprintf("-- static round: old(root)=%s allBE=%s target=%s", cur.String(), allBESet.String(), tset.String()))
-			if err := r.applyBESuppressCPUSet(c12ToInt32(target), c12ToInt32(cur.ToSlice())); err != nil {
-				rt.Fatalf("harness: applyBESuppressCPUSet: %v", err)
+		sawStatic, sawAll, exclusiveChanged, recoverTwice := false, false, false, false
+		doRound := func(round int) {
+			static = rapid.Bool().Draw(rt, "staticPolicyRound")
+			if static {
+				sawStatic = true
+				inf.topo.Annotations = map[string]string{apiext.AnnotationKubeletCPUManagerPolicy: `{"policy":"static"}`}
+				target := c12Subset(rt, allBE, "target")
+				tset = cpuset.NewCPUSet(target...)
+				cur, _ := read(1)
+				trace = append(trace, fmt.Sprintf("-- round %d static: old(root)=%s allBE=%s target=%s exclusive=%v", round, cur.String(), allBESet.String(), tset.String(), exclusive))
+				if err := r.applyBESuppressCPUSet(c12ToInt32(target), c12ToInt32(cur.ToSlice())); err != nil {
+					rt.Fatalf("harness: applyBESuppressCPUSet: %v", err)
+				}
+			} else {
+				recoverTwice = recoverTwice || sawAll
+				sawAll = true
+				inf.topo.Annotations = map[string]string{}
+				trace = append(trace, fmt.Sprintf("-- round %d recover all levels: allBE=%s exclusive=%v", round, allBESet.String(), exclusive))
+				r.recoverCPUSetIfNeed(koordletutil.ContainerCgroupPathRelativeDepth)
 			}
-		} else {
-			inf.topo.Annotations = map[string]string{}
-			trace = append(trace, fmt.Sprintf("-- recover all levels: allBE=%s", allBESet.String()))
-			r.recoverCPUSetIfNeed(koordletutil.ContainerCgroupPathRelativeDepth)
-		}
-		if !dead {
+			if dead {
+				return
+			}
 			for i := 1; i < len(nodes); i++ {
 				want := allBESet
 				if static && nodes[i].Depth == 3 {
@@ -699,19 +707,55 @@ func TestVerifC12BECPUSetRecover(t *testing.T) {
 				}
 				if s, raw := read(i); !s.Equals(want) {
 					dead = true
-					c.Violation(rt, "becpuset-recover:final-not-target", "%s holds %q, want %q; exclusive=%v trace=%v", nodes[i].Dir, raw, want.String(), exclusive, trace)
+					c.Violation(rt, "becpuset-recover:final-not-target", "round %d: %s holds %q, want %q; exclusive=%v trace=%v", round, nodes[i].Dir, raw, want.String(), exclusive, trace)
 					break
 				}
 			}
 		}
+		doRound(0)
+		// further rounds on the same agent; between rounds the LSE pod may move to other cores (its old cpus become usable by BE again,
+		// its new ones exclusive), so the value to recover both grows and shrinks
+		more := 0
+		if !dead {
+			more = rapid.IntRange(0, 2).Draw(rt, "moreRounds")
+		}
+		for round := 1; round <= more && !dead; round++ {
+			if rapid.IntRange(0, 2).Draw(rt, "lseMoves") > 0 {
+				nf := rapid.IntRange(0, 3).Draw(rt, "lseCoreNew") * 2
+				exclusive = []int{nf, nf + 1}
+				if rapid.Bool().Draw(rt, "lseTwoCoresNew") {
+					exclusive = append(exclusive, (nf+2)%8, (nf+3)%8)
+				}
+				isExcl = map[int]bool{}
+				for _, id := range exclusive {
+					isExcl[id] = true
+				}
+				allBE = nil
+				for _, id := range universe {
+					if !isExcl[id] {
+						allBE = append(allBE, id)
+					}
+				}
+				allBESet = cpuset.NewCPUSet(allBE...)
+				moved := lse.DeepCopy() // the informer hands out a new object
+				moved.Annotations = map[string]string{apiext.AnnotationResourceStatus: fmt.Sprintf(`{"cpuset":%q}`, cpuset.NewCPUSet(exclusive...).String())}
+				inf.pods = []*statesinformer.PodMeta{{Pod: moved}}
+				exclusiveChanged = true
+			}
+			doRound(round)
+		}
 		c.ClassIf(v2, "cgroup-v2")
-		c.ClassIf(static, "static-round")
-		c.ClassIf(!static, "recover-all-levels")
+		c.ClassIf(sawStatic, "static-round")
+		c.ClassIf(sawAll, "recover-all-levels")
+		c.Class(fmt.Sprintf("rounds:%d", 1+more))
+		c.ClassIf(exclusiveChanged, "exclusive-cpus-moved-between-rounds")
+		c.ClassIf(recoverTwice, "recover-all-levels-twice")
+		c.ClassIf(recoverTwice && exclusiveChanged, "recover-all-levels-twice-with-exclusive-change")
 		c.ClassIf(oldOutside, "a-pod-or-container-holds-a-now-exclusive-cpu")
 		c.ClassIf(!oldOutside, "old-values-within-all-BE-cpus")
-		if oldOutside {
-			c.NonTrivial(v2, static, fmt.Sprint(nodes), exclusive, tset.String())
+		if oldOutside || exclusiveChanged {
+			c.NonTrivial(v2, fmt.Sprint(nodes), trace)
 		}
-		c.Sample(map[string]any{"v2": v2, "static": static, "exclusive": exclusive, "nodes": nodes, "trace": trace})
+		c.Sample(map[string]any{"v2": v2, "exclusive": exclusive, "nodes": nodes, "trace": trace})
 	})
 }
